@@ -75,7 +75,8 @@ class Chain:
         self.mt = Opaque("matrixType")
 
     def call(self, method, *args):
-        f = self.lib.repo.method(GE, method)
+        # resolved on the class of the element object (an element family may override a step of the chain)
+        f = self.lib.repo.lookup_method(self.obj.cls, method) or self.lib.repo.method(GE, method)
         return self.I.call_function(f, list(args), self_obj=self.obj)
 
     def F(self):
@@ -272,13 +273,26 @@ def fe_hook_full(fn, args, kwargs):
             if value.ndim >= 2 and value.shape[:2] == (1, 1):
                 return XFe.of(value)
             raise AnalysisError("FeArray.broadcast of this shape is not modelled")
-    if isinstance(fn, _NpAttr) and fn.path in ("abs", "asarray") and args and isinstance(args[0], XFe):
+    if isinstance(fn, _NpAttr) and fn.path == "asarray" and args and isinstance(args[0], XFe):
         a = args[0]
         return XArray(a.shape, a.data)
     if isinstance(fn, _NpAttr) and fn.path == "abs":
-        # |det F| on a positively oriented reference geometry
-        return args[0]
+        # numbers: their absolute value; symbolic entries: |det F| on a positively oriented reference geometry
+        a = args[0]
+        if isinstance(a, XArray):
+            return XArray(a.shape, [_abs_entry(v) for v in a.data])
+        return _abs_entry(a)
     return NotImplemented
+
+
+def _abs_entry(v):
+    from fractions import Fraction
+
+    if isinstance(v, Poly) and v.is_const():
+        v = v.const_value()
+    if isinstance(v, (int, Fraction)) and not isinstance(v, bool):
+        return abs(v)
+    return v
 
 
 class OpaqueGroup:
